@@ -23,4 +23,12 @@ structure Ev where
   clr : Bool
 deriving Repr, DecidableEq
 
+/-- run a step function over a history of inputs, collecting the per-cycle observations -/
+def runWith {σ ι ο} (step : σ → ι → σ × ο) (s : σ) : List ι → σ × List ο
+  | [] => (s, [])
+  | i :: is =>
+    let (s', o) := step s i
+    let (s'', os) := runWith step s' is
+    (s'', o :: os)
+
 end TxV.QueueUtil
